@@ -284,7 +284,7 @@ def msgs2(npos: int, prog: int, transport: bool, k0: int, p0: int, t0: str, k1: 
 
 
 def msgs3(prog: int, transport: bool, k0: int, p0: int, k1: int, p1: int, k2: int, p2: int):
-    assume(0 <= p0 <= p1 <= p2 <= NPOS)
+    assume(0 <= p0 <= p1 <= p2 <= 5)
     _harness(pick(prog, len(PROGS)), 1 if transport else 0, [(p0, pick(k0, 7), 'a'), (p1, pick(k1, 7), 'b'), (p2, pick(k2, 7), 'c')], -1, 0)
 
 
@@ -304,6 +304,11 @@ def shards(tier):
                     out.append(dict(name=f'msgs2/prog={prog},transport={transport},k0={k0}', harness='msgs2',
                                     fixed=dict(npos=5, prog=prog, transport=transport, k0=k0), budget_s=400))
                 else:
+                    if prog != 0:
+                        out.append(dict(name=f'msgs2/prog={prog},transport={transport},k0={k0}', harness='msgs2',
+                                        fixed=dict(npos=8, prog=prog, transport=transport, k0=k0), budget_s=1500))
+                    if prog not in (1, 2, 3):
+                        continue
                     for k1 in range(7):
                         out.append(dict(name=f'msgs3/prog={prog},transport={transport},k0={k0},k1={k1}', harness='msgs3',
                                         fixed=dict(prog=prog, transport=transport, k0=k0, k1=k1), budget_s=3000))
@@ -313,7 +318,7 @@ def shards(tier):
 BOUNDS = {
     'quick': dict(messages='K = 2 control messages over ' + str(MNAMES) + f' at gaps 0..5 (programs P1 P2 P3); K = 1 at gaps 0..{NPOS}; a failing state-change broadcast (index 0..6, three tolerated exception kinds) alone or with one rpc kill/pause',
                   programs='P0 P1 P2 P3 P10', transport='kiwipy LocalCommunicator, bare or wrapped in plumpy LoopCommunicator', texts='symbolic str len <= 2'),
-    'thorough': dict(messages='K = 3', programs='P0 P1 P2 P3 P10', transport='as quick', texts='fixed'),
+    'thorough': dict(messages='K = 2 at gaps 0..8 (P1 P2 P3 P10), K = 3 at gaps 0..5 (P1 P2 P3), K = 1 and broadcast failures as quick', programs='P0 P1 P2 P3 P10', transport='as quick', texts='fixed'),
 }
 OUTSIDE = ['RabbitMQ and real threads (RemoteProcessThreadController is driven from the loop thread)', 'the coroutine-based RemoteProcessController', 'more than K messages',
            'exact twin comparison is required only for quiescent deliveries, as the property says; for in-step deliveries it is carried out when the delivery point can be matched']
